@@ -5,7 +5,7 @@ From PG Require Import Lib.Strs Model.Registry.
 Definition c1 : str := [99; 49].
 Definition c2 : str := [99; 50].
 Definition call (c : str) (codes : list N) (f : bool) : gen_call :=
-  {| g_client := c; g_codes := codes; g_force := f |}.
+  {| g_client := c; g_codes := codes; g_force := f; g_core_given := true |}.
 
 (* F11a: core "a.b.core" (three packages deep): c1 declares 404, then c2 declares 409 *)
 Definition l_F11a : layout := {| core_depth := 3; core_inside_client := None |}.
